@@ -34,3 +34,13 @@ VARIANTS = [
       "        w = np.zeros(y.shape[0])\n        for ii in range(y.shape[0]):\n            if (y[ii] == nodata) or np.isnan(y[ii]) or np.isinf(y[ii]):\n                w[ii] = 0\n            else:\n                w[ii] = 1\n", expect="silent", allow_error=True),
     v("c02-twin-where", VP, "    if n > 1:\n        m1 = m - 1", "    if n > 1:\n        y = np.where(w > 0, y, 0.0)\n        m1 = m - 1", expect="silent"),
 ]
+
+A_ = "hdc/algo/accessors.py"
+VARIANTS += [
+    v("c02-twin-nodata-fallback", A_, '        if not self._check_for_timedim():\n            raise MissingTimeError("Whittaker filter requires a time dimension!")\n        if sg is None and s is None:',
+      '        if not self._check_for_timedim():\n            raise MissingTimeError("Whittaker filter requires a time dimension!")\n        if nodata is None:\n            nodata = self._obj.attrs.get("nodata")\n        if sg is None and s is None:',
+      expect="silent", note="a fallback that only replaces None is not a violation"),
+    v("c02-nodata-attr-override", A_, '        if not self._check_for_timedim():\n            raise MissingTimeError("Whittaker filter requires a time dimension!")\n        if sg is None and s is None:',
+      '        if not self._check_for_timedim():\n            raise MissingTimeError("Whittaker filter requires a time dimension!")\n        nodata = self._obj.attrs.get("nodata", nodata)\n        if sg is None and s is None:',
+      names="R-TRUTHY", note="the attribute silently overrides an explicit argument"),
+]
